@@ -247,6 +247,9 @@ func HarnessCallback() {
 	if vrtProp("C17") {
 		vrtAssert("C17.one-form-at-most", rp.Forms <= 1 && (rp.Forms == 0 || rp.Kind == "form"))
 	}
+	if vrtProp("C18") {
+		vrtC18Reply(rp, rp.Kind == "form" || rp.Kind == "xml" || rp.Kind == "redirect" && resolved, d.decoded)
+	}
 }
 
 // vrtC03Assertions: the Success message is bound to request, audience, user.
